@@ -8,3 +8,14 @@ package core
 //@   ensures [spec] result == hotstuff.Q(len(g.replicas))
 //@ func (*RuntimeConfig).ReplicaCount property C20
 //@   ensures [def] result == len(g.replicas)
+
+// Network oracle for block fetching: whether a hash can be fetched, and which block comes
+// back, are fixed (uninterpreted) functions of the hash for the duration of a call. The
+// hash check on the reply is C12's RequestBlockQF obligation.
+//@ pure func avail(h hotstuff.Hash) bool
+//@ pure func fetched(h hotstuff.Hash) *hotstuff.Block
+//@ interface Sender.RequestBlock
+//@   ensures result1 == avail(hash)
+//@   ensures result1 ==> result0 != nil && result0 == fetched(hash) && result0.hash == hash
+//@   ensures !result1 ==> result0 == nil
+//@   modifies alloc
